@@ -52,7 +52,7 @@ def _pos(sy, *names):
 # ----------------------------------------------------------------------------------
 # TA: continuous state + continuous choice + constraint + auxiliary function with parameter
 # ----------------------------------------------------------------------------------
-def TA(T=2, nw=5, nc=3, sym_k=False, sym_g=False, beta_sym=True):
+def TA(T=2, nw=5, nc=3, sym_k=False, sym_g=False, beta_sym=True, lower=False):
     from lcm import Model
 
     def utility(c, w, inc, tc, tw, ti):
@@ -67,21 +67,30 @@ def TA(T=2, nw=5, nc=3, sym_k=False, sym_g=False, beta_sym=True):
     def c_constraint(c, w, k):
         return c <= w - k
 
+    def lo_constraint(c, lo):
+        return c >= lo  # a lower bound: the infeasible grid choices are a *prefix* of the grid
+
+    funcs = dict(utility=utility, inc=inc, next_w=next_w, c_constraint=c_constraint)
+    if lower:
+        funcs["lo_constraint"] = lo_constraint
     model = Model(
         n_periods=T,
-        functions=dict(utility=utility, inc=inc, next_w=next_w, c_constraint=c_constraint),
+        functions=funcs,
         choices=dict(c=lin(1, 3, nc)),
         states=dict(w=lin(1, 5, nw)),
     )
 
     def params(mk):
-        return {
+        p = {
             "beta": mk.real("beta") if beta_sym else 0.75,
             "utility": {"tc": mk.real("tc"), "tw": mk.real("tw"), "ti": mk.real("ti")},
             "inc": {"r": mk.real("r")},
             "next_w": {"g": mk.real("g") if sym_g else 0.5},
             "c_constraint": {"k": mk.real("k") if sym_k else 0.0},
         }
+        if lower:
+            p["lo_constraint"] = {"lo": mk.real("lo")}
+        return p
 
     def assume(sy):
         out = []
@@ -94,7 +103,7 @@ def TA(T=2, nw=5, nc=3, sym_k=False, sym_g=False, beta_sym=True):
     def init(mk, n):
         return {"w": mk.real("w0", (n,))}
 
-    return Tmpl(f"TA[T={T},nw={nw},nc={nc},k={'sym' if sym_k else 0},g={'sym' if sym_g else '1/2'}]", model, params, assume, init)
+    return Tmpl(f"TA[T={T},nw={nw},nc={nc},k={'sym' if sym_k else 0},g={'sym' if sym_g else '1/2'},lower={lower}]", model, params, assume, init)
 
 
 # ----------------------------------------------------------------------------------
@@ -689,3 +698,54 @@ def with_functions(tm, extra_funcs, drop=(), tag="+"):
         return p
 
     return Tmpl(f"{tm.name}|{tag}", model, params, tm.assume, tm.init, tm.notes, dict(tm.extra))
+
+
+# ----------------------------------------------------------------------------------
+# TP: the set of restricted-state combinations that admit a choice CHANGES between periods
+# (period 0 excludes s=0; later periods admit every state); transitions only lead into admitted states
+# ----------------------------------------------------------------------------------
+def TP(T=2, excluded_first=True):
+    import jax.numpy as jnp
+    from lcm import Model
+
+    NS = jnp.array([[1, 2], [0, 2], [1, 0]])
+
+    def utility(s, d, w, U, tw):
+        return U[s, d] + tw * w
+
+    def next_s(s, d):
+        return NS[s, d]
+
+    def next_w(w, d):
+        return w * 0.5 + d * 0.5
+
+    if excluded_first:
+
+        def s_filter(s, d, _period):
+            # period 0: state 0 has no admissible choice; afterwards everything is admissible
+            return jnp.logical_or(s >= 1, _period >= 1)
+    else:
+
+        def s_filter(s, d, _period):
+            # last period(s): state 2 has no admissible choice ... only used with transitions avoiding it
+            return jnp.logical_or(s <= 1, _period < 1)
+
+    model = Model(
+        n_periods=T,
+        functions=dict(utility=utility, next_s=next_s, next_w=next_w, s_filter=s_filter),
+        choices=dict(d=dg(2)),
+        states=dict(s=dg(3), w=lin(0, 2, 3)),
+    )
+
+    def params(mk):
+        return {"beta": mk.real("beta"), "utility": {"U": mk.real("U", (3, 2)), "tw": mk.real("tw")}, "next_s": {}, "next_w": {}, "s_filter": {}}
+
+    def init(mk, n):
+        import jax.numpy as jnp
+
+        return {"s": jnp.array([1, 2, 1, 2][:n]), "w": mk.real("w0", (n,))}
+
+    return Tmpl(f"TP[T={T}]", model, params, lambda sy: [], init)
+
+
+REGISTRY["TP"] = TP
